@@ -18,26 +18,35 @@ EXTENDS Naturals, Sequences, FiniteSets, TLC, Json, IOUtils
 
 TraceEvents == ndJsonDeserialize(IOEnv.TRACE)
 
-VARIABLES l, table, key, compared
-vars == << l, table, key, compared >>
+VARIABLES l, table, key, compared, dtable, grp
+vars == << l, table, key, compared, dtable, grp >>
 \* key = <<api, pub, decl (sequence of declassified values), idx>> of the run in progress, or << >>
-Init == l = 1 /\ table = << >> /\ key = << >> /\ compared = 0
+\* grp # 0: the run belongs to a group of runs that differ ONLY in secrets the library never declassifies anything of (the seed of
+\* context_randomize): within such a group the declassified VALUES must coincide as well -- otherwise a declassification hands out
+\* data derived from that secret (and would, by the strict comparison below, excuse every later divergence).
+\* dtable: <<api, pub, grp, number of the declassification>> -> value
+Init == l = 1 /\ table = << >> /\ key = << >> /\ compared = 0 /\ dtable = << >> /\ grp = 0
 
 Ev == TraceEvents[l]
 TCall == /\ l <= Len(TraceEvents) /\ Ev.e = "Call" /\ key = << >>
          /\ key' = << Ev.api, Ev.pub, << >>, 1 >>
-         /\ l' = l + 1 /\ UNCHANGED << table, compared >>
+         /\ grp' = IF "grp" \in DOMAIN Ev THEN Ev.grp ELSE 0
+         /\ l' = l + 1 /\ UNCHANGED << table, compared, dtable >>
 TSegment == /\ l <= Len(TraceEvents) /\ Ev.e = "Segment" /\ key # << >>
             /\ IF key \in DOMAIN table
                THEN table[key] = Ev.d /\ table' = table /\ compared' = compared + 1      \* must agree with every earlier run
                ELSE table' = table @@ (key :> Ev.d) /\ compared' = compared
             /\ key' = << key[1], key[2], key[3], key[4] + 1 >>
-            /\ l' = l + 1
+            /\ l' = l + 1 /\ UNCHANGED << dtable, grp >>
 TDeclassify == /\ l <= Len(TraceEvents) /\ Ev.e = "Declassify" /\ key # << >>
                /\ key' = << key[1], key[2], Append(key[3], Ev.v), key[4] >>
-               /\ l' = l + 1 /\ UNCHANGED << table, compared >>
+               /\ LET dk == << key[1], key[2], grp, Len(key[3]) + 1 >> IN
+                  IF grp = 0 THEN dtable' = dtable
+                  ELSE IF dk \in DOMAIN dtable THEN dtable[dk] = Ev.v /\ dtable' = dtable
+                  ELSE dtable' = dtable @@ (dk :> Ev.v)
+               /\ l' = l + 1 /\ UNCHANGED << table, compared, grp >>
 TReturn == /\ l <= Len(TraceEvents) /\ Ev.e = "Return" /\ key # << >>
-           /\ key' = << >> /\ l' = l + 1 /\ UNCHANGED << table, compared >>
+           /\ key' = << >> /\ l' = l + 1 /\ UNCHANGED << table, compared, dtable, grp >>
 \* A "Tainted" event is a valgrind-memcheck report between the markers of a run whose secret arguments were marked undefined
 \* (and whose declassifications were honoured): a branch, or an address, was computed from data derived from a secret and
 \* never declassified.  The specification has NO transition that consumes such an event -- a trace containing one is not a
